@@ -13,7 +13,8 @@ EXPLANATION = (
     "in exactly one terminal record (on_error, or set_state(Terminated)+on_finish), and every listener path that created a context and "
     "returns early without enqueueing it passes on_error; (4) state constants are set in lifecycle order; (5) the recorded connector is "
     "the one whose connect() is called; (6) every payload write in copy.rs is paired with incr_sent_bytes of the transferred count "
-    "(including the drained read-ahead); (7) rule P over gc_thread/log_thread (in C05's scope) and the access log flushes per record.")
+    "(including the drained read-ahead); (7) rule P over gc_thread/log_thread (in C05's scope) and the access log flushes per record."
+    ' hand-off: no return of Drop for Context bypasses the push to gc_list.')
 RULE_TEXT = "instances = constructor sites, hand-off steps, return paths, state call sites, payload write sites"
 TRUSTED = ["one Drop per Context value (ownership)", "a single consumer of gc_list"]
 NOT_DECIDED = ["exactly-once under real concurrency (argued from ownership)", "log durability"]
@@ -72,9 +73,15 @@ def run(chk, prog):
         def loopy(b):
             return b in g.reach_from(g.succ[b])
         ok = ok and not loopy(pushes[0].bb)
-        chk.instance("hand-off", "%s:%s" % (g.file, g.line), "Drop for Context pushes its props once to gc_list", ok)
+        # ... and on every path: a return of drop() that bypasses the push (an early `return` for some configuration, e.g. history size 0)
+        # loses the record -- gc_thread writes the access log and removes the `alive` entry from exactly this list
+        if ok:
+            bypass = set(g.returns()) & g.reach_from([0], avoid=[pushes[0].bb])
+            if bypass:
+                ok = False
+        chk.instance("hand-off", "%s:%s" % (g.file, g.line), "Drop for Context pushes its props once to gc_list, on every path", ok)
         if not ok:
-            chk.finding("hand-off", g.key, "drop-push", "", "%s:%s" % (g.file, g.line), "Drop for Context no longer pushes its record exactly once to gc_list")
+            chk.finding("hand-off", g.key, "drop-push", "", "%s:%s" % (g.file, g.line), "Drop for Context no longer pushes its record exactly once to gc_list on every path: a context dropped on the bypassing path is never written to the access log, never enters the history and stays listed as alive")
     gt = None
     for f in prog.fns.values():
         if f.crate == "redproxy_rs" and re.search(r"^context::GlobalState::gc_thread::\{closure#0\}$", f.path):
